@@ -87,6 +87,9 @@ func Replay(in string, w *ev.Writer, o Opts) error {
 				res["got_name"] = *name
 			}
 			res["match"] = ok
+			if !ok {
+				res["fails"] = []ev.M{{"stage": "Dec", "sub": "request-decoder", "go": "LiteapiRequestDecoder", "detail": fmt.Sprint("err=", derr)}}
+			}
 			w.Emit(res)
 			continue
 		}
@@ -94,34 +97,56 @@ func Replay(in string, w *ev.Writer, o Opts) error {
 		if !okT {
 			return fmt.Errorf("vector %d: no Go target for %s/%s", v.Vec, v.Ty, v.Op)
 		}
-		match := true
+		// Dec: the bindings must parse the specification's bytes to the specification's value;
+		// Enc: the bindings must serialise the specification's value to the specification's bytes.
+		// Both are judged on their own (a value the code cannot even marshal is a finding, not a harness error).
+		var fails []ev.M
+		fail := func(stage, sub, goType, detail string, extra ev.M) {
+			m := ev.M{"stage": stage, "sub": sub, "go": goType, "detail": detail}
+			for k, x := range extra {
+				m[k] = x
+			}
+			fails = append(fails, m)
+		}
 		for _, t := range ts {
 			if t.Ty != tg.Ty || t.Op != tg.Op {
 				continue
 			}
+			gt := t.T.String()
 			gv, rest, uerr, pan := unmarshal(t.T, data)
-			if pan != "" || uerr != nil || rest != 0 {
-				match = false
-				res["why"] = fmt.Sprintf("%v: unmarshal err=%v panic=%q unread=%d", t.T, uerr, pan, rest)
-				break
+			switch {
+			case pan != "":
+				fail("Dec", "panic", gt, pan, nil)
+			case uerr != nil:
+				fail("Dec", "refused", gt, uerr.Error(), nil)
+			case rest != 0:
+				fail("Dec", "unread", gt, fmt.Sprintf("%d bytes left unread", rest), nil)
+			default:
+				j, err := s.TvToJSON(tyOf(v.Ty), gv)
+				if err != nil {
+					return err
+				}
+				if tlval.TvCanon(j) != tlval.TvCanon(v.V) {
+					fail("Dec", "differs", gt, "decoded value differs", ev.M{"got_v": j})
+				}
 			}
-			j, err := s.TvToJSON(tyOf(v.Ty), gv)
+			bv, err := s.TvFromJSON(tyOf(v.Ty), v.V, t.T)
 			if err != nil {
-				return err
+				return fmt.Errorf("vector %d: the harness cannot express the value: %v", v.Vec, err)
 			}
-			if tlval.TvCanon(j) != tlval.TvCanon(v.V) {
-				match = false
-				res["why"] = t.T.String() + ": decoded value differs"
-				res["got_v"] = j
-				break
+			b, merr, pan := marshal(bv)
+			switch {
+			case pan != "":
+				fail("Enc", "panic", gt, pan, nil)
+			case merr != nil:
+				fail("Enc", "refused", gt, merr.Error(), nil)
+			case hex.EncodeToString(b) != v.Hex:
+				fail("Enc", "differs", gt, "bytes differ", ev.M{"got_hex": hex.EncodeToString(b)})
 			}
-			b, merr, pan := marshal(gv)
-			if pan != "" || merr != nil || hex.EncodeToString(b) != v.Hex {
-				match = false
-				res["why"] = fmt.Sprintf("%v: re-marshal err=%v panic=%q", t.T, merr, pan)
-				res["got_hex"] = hex.EncodeToString(b)
-				break
-			}
+		}
+		match := len(fails) == 0
+		if !match {
+			res["fails"] = fails
 		}
 		res["match"] = match
 		w.Emit(res)
@@ -145,7 +170,10 @@ func ReqDecode(in string, w *ev.Writer, o Opts) error {
 	if err != nil {
 		return err
 	}
-	w.Emit(ev.M{"k": "Reset", "schema": json.RawMessage(raw), "note": "LiteapiRequestDecoder"})
+	// one segment per function, so that a rejected decode of one request does not hide the others
+	byFn := map[string][]ev.M{}
+	var fnOrder []string
+	cur := ""
 	call := func(data []byte) error {
 		tag, name, val, derr := liteclient.LiteapiRequestDecoder(append([]byte{}, data...))
 		m := ev.M{"k": "ReqDecode", "hex": hex.EncodeToString(data), "tag": strconv.FormatUint(uint64(tag), 10), "err": ev.ErrClass(derr), "name": ""}
@@ -159,13 +187,17 @@ func ReqDecode(in string, w *ev.Writer, o Opts) error {
 			}
 			m["v"] = j
 		}
-		w.Emit(m)
+		if _, ok := byFn[cur]; !ok {
+			fnOrder = append(fnOrder, cur)
+		}
+		byFn[cur] = append(byFn[cur], m)
 		return nil
 	}
 	for i, v := range vs {
 		if v.Op != "Fn" {
 			continue
 		}
+		cur = v.Ty
 		data, _ := hex.DecodeString(v.Hex)
 		if err := call(data); err != nil {
 			return err
@@ -184,6 +216,12 @@ func ReqDecode(in string, w *ev.Writer, o Opts) error {
 			if err := call(data[:i%4]); err != nil { // shorter than an id
 				return err
 			}
+		}
+	}
+	for _, fn := range fnOrder {
+		w.Emit(ev.M{"k": "Reset", "schema": json.RawMessage(raw), "note": "LiteapiRequestDecoder on " + fn})
+		for _, m := range byFn[fn] {
+			w.Emit(m)
 		}
 	}
 	w.Emit(ev.M{"k": "End", "events": w.N})
